@@ -14,6 +14,8 @@ is what is encoded.
 Long arrays (kinds long / longclip: one 13e6-frame file written once per run) are not encoded coordinate by coordinate but by
 generic reductions of the axis (dtype, n, number of non-increasing pairs, first / last / step, exact maximum deviation from
 c_0 + i*step, a handful of sampled (i, c_i, value) triples).
+Cases with decl > 0 use a Recording built by hand (samplerate = decl, duration = N/decl) over a file whose header rate x time
+expansion is something else.
 It computes no expected value and takes no decision.
 """
 from __future__ import annotations
@@ -260,9 +262,13 @@ _RECS: dict = {}
 def _recording(case):
     p = _wav(case)
     te = case["te"][0] / case["te"][1]
-    key = (str(p), te)
+    decl = case.get("decl", 0)
+    key = (str(p), te, decl)
     if key not in _RECS:
-        _RECS[key] = data.Recording.from_file(p, time_expansion=te, compute_hash=False)
+        if decl:      # a Recording built by hand: its samplerate (and the duration that goes with it) is what the user declares
+            _RECS[key] = data.Recording(path=p, duration=case["N"] / decl, channels=case["ch"], samplerate=decl, time_expansion=te)
+        else:
+            _RECS[key] = data.Recording.from_file(p, time_expansion=te, compute_hash=False)
     return _RECS[key]
 
 
@@ -378,10 +384,10 @@ def _observe(case, rec, out):
 
 
 # ----------------------------------------------------------------------------- larger universes (random, seeded)
-def _case(kind, fr, te, tden, ch, n, s=0, e=0, src="clip", w=0, h=0, target=0, fmt="PCM_16", pre=0, hist="none", n2=None, base2=0):
+def _case(kind, fr, te, tden, ch, n, s=0, e=0, src="clip", w=0, h=0, target=0, fmt="PCM_16", pre=0, hist="none", n2=None, base2=0, decl=0):
     return {"kind": kind, "fr": fr, "te": list(te), "tden": tden, "ch": ch, "N": n, "s": s, "e": e,
             "src": src, "w": w, "h": h, "target": target, "pre": pre, "hist": hist, "N2": n if n2 is None else n2,
-            "base2": base2, "fmt": fmt}
+            "base2": base2, "decl": decl, "fmt": fmt}
 
 
 def _hist(rng, n):
@@ -438,6 +444,15 @@ def random_cases(rng, tier):
         hist, n2, base2 = _hist(rng, n)
         yield _case("rec", fr, te, 4 * (fr * te[0] // te[1]), rng.choice([1, 2, 3]), n,
                     src="rec", fmt=rng.choice(["PCM_16", "FLOAT"]), hist=hist, n2=n2, base2=base2)
+    # Recordings built by hand whose samplerate differs from header rate x time expansion
+    for _ in range(60 if tier == "quick" else 500):
+        fr, te, decl = rng.choice([(5512, (8, 1), 44100), (83333, (3, 1), 250000), (8000, (1, 1), 8001), (8, (1, 1), 16), (12, (1, 1), 8),
+                                   (16, (1, 2), 16), (22050, (1, 1), 22051), (4410, (10, 1), 44000), (32, (1, 1), 64)])
+        n = rng.randrange(1, 60)
+        tden = 4 * decl
+        top = 4 * (n + 6) + 1
+        s, e = sorted((rng.randrange(0, top + 1), rng.randrange(0, top + 1)))
+        yield _case(rng.choice(["clip", "clip", "clip", "rec"]), fr, te, tden, rng.choice([1, 2]), n, s, e, decl=decl)
     for _ in range(n_clip):
         fr, te = rng.choice(_RATES)
         sr = fr * te[0] // te[1]
